@@ -21,6 +21,7 @@ pub fn udp_socket(
         use std::os::unix::prelude::FromRawFd;
 
         tracing::trace!("udp_socket local: {:?} remote: {:?}", local, remote);
+        let ephemeral = local.port() == 0;
         let local: SockaddrStorage = local.into();
         let remote: Option<SockaddrStorage> =
             remote.filter(|x| !x.ip().is_unspecified()).map(Into::into);
@@ -30,7 +31,12 @@ pub fn udp_socket(
             SockFlag::empty(),
             SockProtocol::Udp,
         )?;
-        setsockopt(fd, ReuseAddr, &true)?;
+        // sessions of one listener share its port on purpose, but an ephemeral port must be this
+        // socket's alone: with SO_REUSEADDR the kernel may hand out a port another session already
+        // has, and replies then reach whichever of the two sockets it prefers
+        if !ephemeral {
+            setsockopt(fd, ReuseAddr, &true)?;
+        }
         if transparent {
             #[cfg(target_os = "linux")]
             {
